@@ -21,12 +21,16 @@ class Frame:
         self.parent = parent
         self.clsname = clsname
 
+    alias = {}      # recorded local name -> current name (consistently renamed locals, see pyvc/locals_.py); set per FUC run
+
     def lookup(self, name):
         f = self
         while f is not None:
             if name in f.env:
                 return f.env[name]
             f = f.parent
+        if name in Frame.alias:
+            return self.lookup(Frame.alias[name])
         raise KeyError(name)
 
     def has(self, name):
